@@ -54,7 +54,7 @@ prop("C09", "RU (UTF-16 positions never mixed with code-point counts in any func
     gates("C09"),
     lambda p, r: rn.rule_rsib(p, r, only=(), parts=("loop",)),
 ])
-prop("C12", "RE (constant index into possibly-empty wrapping), RD (no discarded result of a pure call), RG gates of the structure helpers", [rsmall.rule_re, rsmall.rule_rd, gates("C12")])
+prop("C12", "RE (constant index into possibly-empty wrapping), RD (no discarded result of a pure call), RG gates of the structure helpers", [lambda p, r: rsmall.rule_re(p, r, files=("prosemirror/transform/structure.py", "prosemirror/model/content.py", "prosemirror/model/from_dom.py")), rsmall.rule_rd, gates("C12")])
 prop("C14", "RT (lazy copies in Mark.add_to_set / NodeType.allowed_marks tested by identity), RM (mark group membership on split lists), RG gates of the mark-set algebra", [lambda p, r: rt.rule_rt(p, r), rsmall.rule_rm, gates("C14")], [rt.rule_rt_xref])
 prop("C18", "RK-spec (spec keys read are declared keys), RG gates (isolating barriers in the ancestor walkers)", [rk.rule_rk_spec, gates("C18")])
 prop("C19", "RL over from_dom/to_dom (no stuck loop path), RX (search sentinels), RA (escaping and str sinks), RT2, RG gates (mark activation)", [
@@ -79,7 +79,7 @@ prop("C03", "RN (get_map of both replace steps is the documented function of the
 prop("C04", "RG gates of history bookkeeping and of the inverse constructions", [gates("C04"), rn.rule_rn_formulas, rcustom.rule_rp_add_step, rf.rule_rf_accumulators, lambda p, r: rn.rule_rsib(p, r, only=("MarkStep",))])
 prop("C07", "RG gates: each validity predicate contains the conjuncts of the definition of validity", [gates("C07"), rcustom.rule_rc_dep, rsmall.rule_rm])
 prop("C10", "RF (no in-place write reaches a shared value): RF-mut (every in-place mutation has a fresh receiver or a declared non-value owner), RF-attr (value-type fields assigned only in __init__), RF-acc (accumulators append-only, single writer), RF-json, RD, RG gates on identity shortcuts", [rf.rule_rf_mutations, rf.rule_rf_attr_stores, rf.rule_rf_accumulators, rf.rule_rf_json, rsmall.rule_rd, rcustom.rule_copy_fresh, gates("C10")])
-prop("C11", "RP-fitter (placed / frontier-match pairing, frontier pushes), RG gates of the fitter (mark filter on placement, isolating barrier), RT on NodeType.allowed_marks", [rcustom.rule_rp_fitter, gates("C11"), lambda p, r: rt.rule_rt(p, r, only={"prosemirror/model/schema.py::NodeType.allowed_marks"})])
+prop("C11", "RP-fitter (placed / frontier-match pairing, frontier pushes), RG gates of the fitter (mark filter on placement, isolating barrier), RT on NodeType.allowed_marks", [rcustom.rule_rp_fitter, lambda p, r: rsmall.rule_re(p, r, files=("prosemirror/transform/replace.py", "prosemirror/transform/transform.py"), min_reads=0), gates("C11"), lambda p, r: rt.rule_rt(p, r, only={"prosemirror/model/schema.py::NodeType.allowed_marks"})])
 prop("C13", "RG gates of the mark planners (coalescing conditions, permission), RT on Mark.add_to_set, RU on clear_incompatible", [gates("C13"), lambda p, r: rt.rule_rt(p, r, only={"prosemirror/model/mark.py::Mark.add_to_set"}), lambda p, r: ru.rule_ru(p, r, files=("prosemirror/transform/transform.py",))])
 prop("C15", "RG gates of the fill and wrapper searches (generatable guard, seen-set discipline, BFS order)", [gates("C15")])
 prop("C16", "RG gates: merge guards of ReplaceStep / AddMarkStep / RemoveMarkStep", [gates("C16"), rcustom.rule_merge_slices, lambda p, r: rn.rule_rsib(p, r, only=(".merge",))])
